@@ -22,7 +22,7 @@ func c15Case(chain []*vhdr.Header, subj, nw int, R uint64, forged bool, failH in
 	defer vhdr.TrustRange.Store(0)
 	st := newStoreWith(chain, 1, subj)
 	defer st.Stop(ctx) //nolint:errcheck
-	g := &scriptGetter{chain: chain, failH: map[uint64]bool{}}
+	g := &scriptGetter{chain: chain, failH: map[uint64]bool{}, budget: 20000}
 	if failH > 0 {
 		g.failH[uint64(failH)] = true
 	}
@@ -37,6 +37,8 @@ func c15Case(chain []*vhdr.Header, subj, nw int, R uint64, forged bool, failH in
 	if err != nil {
 		var ve *header.VerifyError
 		switch {
+		case errors.Is(err, errBudget):
+			res = "nonterminating"
 		case errors.Is(err, errGetter):
 			res = "geterr"
 		case strings.Contains(err.Error(), "bifurcation: new head failed"):
